@@ -12,6 +12,7 @@ REQUIRED = [
     "DaeVerif.C02.Props.inherit_keeps_generation_installed",
     "DaeVerif.C02.Props.deleting_a_live_slot_breaks_routing",
     "DaeVerif.C02.Props.installed_check_sound",
+    "DaeVerif.C02.Props.installed_by_encoders",
     "DaeVerif.C02.Props.routeK_nonneg_or_eperm",
     "DaeVerif.C02.Props.active_len_clamped",
     "DaeVerif.C02.Props.nothing_installed_is_error",
@@ -31,6 +32,13 @@ REQUIRED = [
     "DaeVerif.C02.Props.lan_pname_hypothesis_needed",
     "DaeVerif.C02.Props.lpm_key_same_set",
     "DaeVerif.C02.Props.domain_bit_same",
+    # composition C02 ∘ C10 ∘ C11 (Compose/KernelDomain.lean): H2 and DomOK discharged from the DNS-cache
+    # table invariant and the domain matcher's bitmap theorem
+    "DaeVerif.Compose.kernel_routes_by_dns_learnt_domains",
+    "DaeVerif.Compose.kernel_routes_by_dns_learnt_domains_history",
+    "DaeVerif.Compose.domainWord_kernelMaps",
+    "DaeVerif.Compose.table_bit_at_position",
+    "DaeVerif.Compose.entryBitmap_spec",
 ]
 
 MUTATING = ("lpm", "lpmdel", "rset", "meta", "dom", "domdel")
@@ -177,6 +185,16 @@ def expected_k(op_toks, u):
     return ob | (mark << 8) | (must << 40)
 
 
+def canon_line(s):
+    """const lines are compared three-way elsewhere; the ring counter policy and the particular negative
+    errno of route() are not part of the property."""
+    if s.startswith("="):
+        return ""
+    if s.startswith("ok ring-model-predicted"):
+        return "ok"
+    return re.sub(r"^k=-\d+", "k=err", s)
+
+
 def run_stream(ctx, name, cdrv):
     """Runs the native route() and the Lean model on the op file the Go harness wrote; returns
     (ops, merged impl lines, model lines, list of NEQ (op, impl) pairs)."""
@@ -196,10 +214,13 @@ def run_stream(ctx, name, cdrv):
     merged, neq = [], []
     for op, g, c in zip(ops, go, cl):
         kind = op.split(" ", 1)[0]
+        if kind in ("pkt", "kpkt") and c.startswith("k=-"):
+            c = "k=err"  # which negative errno route() returns is not part of the property (callers test < 0)
         if kind == "pkt":
             line = f"{c} {g}"
             try:
-                if int(c[2:]) != expected_k(op.split(" "), g[2:]):
+                kv = -1 if c == "k=err" else int(c[2:])
+                if kv != expected_k(op.split(" "), g[2:]):
                     line += " NEQ"
                     neq.append((op, line))
             except ValueError:
@@ -232,7 +253,8 @@ def run(ctx):
     import threading
 
     def prove():
-        ctx.prove(["DaeVerif.C02.Props"], ["DaeVerif.C02.Props"], ["DaeVerif/C02/*.lean"], extra_targets=["c02drv"])
+        ctx.prove(["DaeVerif.C02.Props", "DaeVerif.Compose.KernelDomain"], ["DaeVerif.C02.Props", "DaeVerif.Compose"],
+                  ["DaeVerif/C02/*.lean", "DaeVerif/Compose/*.lean"], extra_targets=["c02drv"])
         ctx.required_theorems(REQUIRED)
 
     # native build of /repo's CURRENT tproxy.c (unmodified; #included by the driver)
@@ -288,7 +310,7 @@ def run(ctx):
             return ops, merged, model
         mism = ctx.diff_streams(os.path.join(ctx.out, name + ".ops"), os.path.join(ctx.out, name + ".merged"),
                                 os.path.join(ctx.out, name + ".model"), name,
-                                canon=lambda s: "" if s.startswith("=") else ("ok" if s.startswith("ok ring-model-predicted") else s))
+                                canon=canon_line)
         # const lines: three-way check below; the ring counter's exact policy is not part of the property
         ring_invariants(ctx, ops, name)
         ring_dis = [m for m in model if m.startswith("ok ring-model-predicted")]
@@ -363,17 +385,27 @@ def run(ctx):
     ctx.cov["boundary_stream"] = {"notes": bnote, "packets": sum(1 for o in bops if o.startswith("pkt ")),
                                   "overlapping_pairs": ctx.cov.get("ring", {}).get("c02big", {}).get("overlapping_pairs")}
 
+    # ---- domain table across reloads: bitmaps written by the real DnsController/tracker, reloads that re-number the domain sets
+    dops, dmerged, dmodel = three_way("c02dom")
+    dnote = read_lines(os.path.join(ctx.out, "c02dom.note"))
+    ctx.cov["domain_stream"] = {"notes": dnote, "packets": sum(1 for o in dops if o.startswith("pkt ")),
+                                "entries_verified": cnt.get("dom.entries_verified", 0),
+                                "cached_name_missing_in_kernel_map": cnt.get("dom.cached_name_missing_in_kernel_map", 0)}
+    if cnt.get("dom.cached_name_missing_in_kernel_map", 0):
+        ctx.say(f"NOTE property=C02 [c02dom] {cnt['dom.cached_name_missing_in_kernel_map']} address(es) of cached names are absent from domain_routing_map "
+                "after a reload/rebuild (the kernel then routes them without the domain; equality of what IS installed is checked) — C10's subject")
+
     # ---- kernel error paths: native route() vs model on hand-written maps
     eops, emerged, emodel, _ = run_stream(ctx, "c02err", cdrv)
     if emerged:
         em = ctx.diff_streams(os.path.join(ctx.out, "c02err.ops"), os.path.join(ctx.out, "c02err.merged"),
-                              os.path.join(ctx.out, "c02err.model"), "c02err")
+                              os.path.join(ctx.out, "c02err.model"), "c02err", canon=canon_line)
         for ln, op, im, mo in em[:5]:
             ctx.report(f"kernel error path: native route() differs from the model at line {ln}: C `{im[:100]}` model `{mo[:100]}`",
                        {"stream": "c02err", "line": ln, "op": op[:2000], "impl": im, "model": mo, "ops_before": eops[max(0, ln - 4):ln - 1]})
         ek = [m for o, m in zip(eops, emerged) if o.startswith("kpkt ")]
-        ctx.cov["kernel_error_stream"] = {"packets": len(ek), "errors": sum(1 for m in ek if m.startswith("k=-")), "answers": ek}
-        if len(ek) < 10 or not any(m.startswith("k=-") for m in ek) or not any(not m.startswith("k=-") for m in ek):
+        ctx.cov["kernel_error_stream"] = {"packets": len(ek), "errors": sum(1 for m in ek if m == "k=err"), "answers": ek}
+        if len(ek) < 10 or not any(m == "k=err" for m in ek) or not any(m != "k=err" for m in ek):
             ctx.report("kernel error stream is degenerate: " + str(ek), {"answers": ek}, no_input=True)
 
     # ---- regression replay of former finding #6 (pname('') with an unknown process on WAN; repaired by
@@ -397,13 +429,27 @@ def run(ctx):
         ctx.report("empty-process-name replay did not run (program rejected or packets missing): " + str(f6), f6, no_input=True)
     ctx.cov["empty_pname_replay"] = f6
 
+    # generator reach: below these floors the run did not test what it claims (exit 2, not OK)
+    thorough = ctx.tier == "thorough"
+    floors = {"prog.installed": 1500 if thorough else 250, "reload.commit+inherit": 100, "reload.rebuild": 100, "ring.wraps": 2,
+              "pkt.dport53": 5000, "pkt.wan_pname_unknown": 2000, "pkt.domain_bitmap_nonzero": 2000, "pkt.zero_mac": 2000,
+              "set.tail_must_rules": 50, "set.not": 300, "result.must": 1000, "result.marked": 1000,
+              "dom.generations": 3, "dom.self_rebuild": 1, "dom.entries_verified": 15, "pkt.domain_table_written_by_control_plane": 30,
+              "max_matchsets_in_a_program": 300, "max_lpm_tries_in_a_program": 50}
+    floors.update({f"set.type{t}": 150 for t in range(11)})
+    low = {k: cnt.get(k, 0) for k, v in floors.items() if cnt.get(k, 0) < v}
+    ctx.cov["floors"] = floors
+    if low and not ctx.violations:
+        ctx.say(f"GENERATOR-BELOW-FLOOR property=C02 {low} (floors {({k: floors[k] for k in low})}) — not OK: the run did not test what it claims")
+        return 2
+
     pk = [(o, m) for o, m in zip(ops, merged) if o.startswith("pkt ")]
     ctx.samples = stats["samples"][:2] + [o[:400] for o, _ in pk[:3]] + [m for _, m in pk[:3]]
     ctx.cov["input_distribution"] = stats["counters"]
     ctx.cov["distinct_decisions"] = len(collections.Counter(m for _, m in pk))
     ctx.cov["programs_installed"] = stats["counters"].get("prog.installed", 0)
     ctx.cov["const_lines_three_way"] = n_const_lines[0]
-    ctx.cov["kernel_errors"] = sum(1 for _, m in pk if m.startswith("k=-"))
+    ctx.cov["kernel_errors"] = sum(1 for _, m in pk if m.startswith("k=err"))
     ctx.assumptions = [
         "packets, programs and reload sequences are generated (seeded): what was not generated was not compared",
         "little-endian host/target (amd64): the big-endian case is a model-level theorem (decode_encode_bigendian_fails), not executed",
